@@ -566,6 +566,19 @@ pub fn run(ctx: &Ctx) {
             }
         }
     }
+    // three arguments with a compound one in the middle: every pair of the outer arguments is still checked
+    for f in ["min", "max", "clamp"] {
+        for a in &simple {
+            for m in &args {
+                if matches!(m, T::Leaf(_)) {
+                    continue;
+                }
+                for c in &simple {
+                    fns.push(T::Fn(f, vec![a.clone(), m.clone(), c.clone()]));
+                }
+            }
+        }
+    }
     let base = fns.len();
     // nested: fn op leaf, leaf op fn
     for k in 0..base.min(ctx.pick(600, 4000)) {
@@ -586,7 +599,7 @@ pub fn run(ctx: &Ctx) {
             judge(ctx, sub, t, style, if matches!(t, T::Fn(..)) { "" } else { "calc" }, l);
         },
     );
-    ctx.bound(sub, "min/max over (depth<=1 tree, leaf), clamp over all leaf triples, and those nested as an operand of + - * /; literal and variable spellings", true);
+    ctx.bound(sub, "min/max over (depth<=1 tree, leaf), clamp over all leaf triples, min/max/clamp over (leaf, depth-1 tree, leaf), and a sample of those nested as an operand of + - * /; literal and variable spellings", true);
     ctx.sample(sub, json!({"input": "a{b:clamp(7, 1px, 2em)}"}));
     ctx.assume("relative units are assigned concrete lengths in three environments; a percentage is treated as a length in the environments and cases whose typing depends on what a percentage stands for are skipped; division by zero is skipped");
 }
